@@ -49,7 +49,10 @@ def _plan(draw, lo, hi, depth, ctr):
                 files.append({'name': f'f{ctr[0]}.yaml', 'dir': draw(st.sampled_from(DIRS)),
                               'where': draw(st.sampled_from(['rel', 'rel', 'rel', 'cwd', 'both'])),
                               'entries': draw(_plan(a, b, depth + 1, ctr))})
-            entries.append(['inc', files, draw(st.booleans())])
+            # now and then one include node lists a file twice (merging is order-sensitive and not idempotent: a, b, a is not a, b)
+            # (with another file in between, so that it matters)
+            rep = draw(st.integers(0, len(files) - 2)) if len(files) >= 2 and draw(st.integers(0, 2)) == 0 else None
+            entries.append(['inc', files, draw(st.booleans()), rep])
         i = j
     return entries
 
@@ -155,12 +158,28 @@ def emit_file(lay, texts, entries, here_dir, depth):
                     lay.nested_files += 1
                 names.append(rel_name)
                 node_files.append((target, rel_name, decoy))
+            if len(e) > 3 and e[3] is not None:
+                names.append(names[e[3]])           # the same file once more, at the end of the list
             lay.inc_nodes.append(node_files)
             if len(names) == 1 and e[2]:
                 out.append(f'--- !include {names[0]}\n')
             else:
                 out.append('--- !include [' + ', '.join(names) + ']\n')
     return ''.join(out)
+
+
+def flatten(entries):
+    """Indices of the documents in the order in which the plan delivers them (a file listed twice delivers its documents twice)."""
+    out = []
+    for e in entries:
+        if e[0] == 'doc':
+            out.append(e[1])
+        else:
+            for f in e[1]:
+                out += flatten(f['entries'])
+            if len(e) > 3 and e[3] is not None:
+                out += flatten(e[1][e[3]]['entries'])
+    return out
 
 
 def plan_depth(entries):
@@ -207,6 +226,13 @@ def run_case(case):
 
         if mode in ('split', 'missing'):
             plan = case['plan']
+            seq = flatten(plan)
+            if seq != list(range(len(texts))):
+                # some file is included twice: the reference is the sequence of documents as delivered
+                labels.add('file-listed-twice-in-one-include')
+                ref_status, ref = _build_in(lay.cwd, lambda: Config.build(*[texts[i] for i in seq], raw_yaml=True))
+                ref_val = O.to_builtin(ref) if ref_status == 'ok' else type(ref).__name__
+                src = '\ndocuments (as delivered: %s):\n' % seq + '\n'.join(texts)
             if case['top'] in ('sources', 'mixed') and all(e[0] == 'doc' for e in plan):
                 case = dict(case, top='file')
             raw_flags = False
@@ -257,7 +283,7 @@ def run_case(case):
                     raise Violation(f'C06: a file from the working directory was used although the including file has a sibling of that name{src}{layout_txt}')
                 # a multi-document single source for comparison
                 one = os.path.join(lay.tree, 'all_in_one.yaml')
-                lay.write(one, ''.join(texts))
+                lay.write(one, ''.join(texts[i] for i in seq))
                 status, got = _build_in(lay.cwd, lambda: Config.build(one, raw_yaml=False))
                 same_as_ref(status, got, 'one multi-document file')
             else:
